@@ -164,3 +164,48 @@ def common_coverage(ex: Extraction, run: Run) -> None:
         "loops are analysed for zero or one iteration; rules are per effect and every later iteration starts from a pre-state that is itself analysed",
         "calls leaving _session.py (pack, constructors, unpack_ldap_message) return an opaque value or raise one of the exception classes named by the function's handlers, or an unnamed one",
     ]
+
+
+# ---------------------------------------------------------------- invariant
+def inv_search_subset(ex: Extraction, q: str):
+    """Inductive check of  state != CLOSED  =>  _search_requests <= _outstanding_requests
+    for session class q. Returns (ok, [(path, reason)])."""
+    bad = []
+    for p in ex.paths[q] + ex.init_paths[q]:
+        if p.post_state == "CLOSED":
+            continue
+        for e in p.effects:
+            if e.kind == "set_add" and e.a == SEARCH:
+                k = f"in[{OUT}]({desc(e.b)})"
+                if p.facts.get(k) is not True:
+                    bad.append((p, f"{desc(e.b)} added to the search set but not (left) in the outstanding set"))
+            if e.kind in ("set_remove", "set_discard") and e.a == OUT:
+                k = f"in[{SEARCH}]({desc(e.b)})"
+                if p.facts.get(k) is not False:
+                    bad.append((p, f"{desc(e.b)} removed from the outstanding set while it may remain in the search set"))
+            if e.kind == "set_assign" and e.a == OUT and p.entry != "__init__":
+                bad.append((p, "outstanding set replaced while the session stays open"))
+            if e.kind == "attr_call" and e.a in (OUT, SEARCH):
+                bad.append((p, f"unrecognised mutation {e.a}.{e.b}"))
+    return (not bad), bad
+
+
+def implicit_paths(ex: Extraction, q: str) -> List[PathSummary]:
+    return [p for p in ex.paths[q] if p.outcome.kind == "raise" and p.outcome.exc.origin.startswith("implicit:")]
+
+
+def discharge_implicit(ex: Extraction, q: str, p: PathSummary) -> Tuple[bool, str]:
+    """An implicit KeyError path `OUT.remove(x)` is infeasible when x is known to be in
+    the search set on that path and search <= outstanding is inductive for the class."""
+    e = [x for x in p.effects if x.kind == "implicit"][-1]
+    if "_outstanding_requests.remove" in str(e.b):
+        x = str(e.b)[str(e.b).index("remove(") + 7: str(e.b).index(")")]
+        was_in_search = any(k == f"in[{SEARCH}]({x})" and v is True for k, v in e.snap_facts.items()) or \
+            any(g.kind == "guard" and f"in {'self.' + SEARCH}" in str(g.a) and x in str(g.a) and g.b is True for g in p.effects) or \
+            any(g.kind in ("set_remove",) and g.a == SEARCH and desc(g.b) == x for g in p.effects)
+        if was_in_search:
+            ok, bad = inv_search_subset(ex, q)
+            if ok:
+                return True, "id is in the search set and search <= outstanding is an inductive invariant of the class"
+            return False, "needs search <= outstanding, which is not inductive: " + bad[0][1]
+    return False, "no live membership fact"
